@@ -61,8 +61,15 @@ pub fn fs_read_to_string(p: &PathBuf) -> (r: Result<String, IoError>) { unimplem
 pub fn json_interface_from_str(s: &String) -> (r: Result<InterfaceUnit, JsonError>) { unimplemented!() }
 #[verifier::external_body]
 pub fn json_core_from_str(s: &String) -> (r: Result<CoreUnit, JsonError>) { unimplemented!() }
+// errors: only one bit of provenance is modelled (used by U-LINK's determinism clause): was the error raised by the
+// dependency consistency check of link_cores, and if so for which (package, dependency)
+impl CompilationError {
+    pub uninterp spec fn is_dep(&self) -> bool;
+    pub uninterp spec fn pkg(&self) -> Seq<char>;
+    pub uninterp spec fn dep(&self) -> Seq<char>;
+}
 #[verifier::external_body]
-pub fn compile_error(m: String) -> (r: CompilationError) { unimplemented!() }
+pub fn compile_error(m: String) -> (r: CompilationError) ensures !r.is_dep() { unimplemented!() }
 #[verifier::external_body]
 pub fn rt_msg() -> (r: String) { unimplemented!() }
 impl PathBuf {
